@@ -400,7 +400,10 @@ def do_action(case, image):
             it = ImageIterator(image, case.get("repeat", 1), case["spec"], case.get("cached", False))
             try:
                 for _ in range(case.get("take", 2)):
-                    next(it)
+                    try:
+                        next(it)
+                    except StopIteration:  # fewer frames than asked for: exhausted
+                        break
                 end = case.get("end", "close")
                 if end == "close":
                     it.close()
